@@ -122,6 +122,7 @@ structure TreeSpec (T V : Type) where
   empty : T
   insert : Pat → String → V → T → T
   find : T → String → List V
+  get : T → Pat → String → Option V
   retain : (String → V → Option V) → T → T
   isEmpty : T → Bool
   entries_empty : entries empty = []
@@ -132,6 +133,8 @@ structure TreeSpec (T V : Type) where
       ∀ k, alookup k (entries (insert p id v t)) = if k = (p, id) then some v else alookup k (entries t)
   /-- `find` returns exactly the values of the matching patterns (in some order) -/
   find_spec : ∀ t h v, v ∈ find t h ↔ ∃ e ∈ entries t, pmatch e.1.1 h = true ∧ e.2 = v
+  /-- `get` / `get_mut` address one entry -/
+  get_spec : ∀ t p id, get t p id = alookup (p, id) (entries t)
   /-- `retain` keeps (and updates) exactly the entries the closure keeps -/
   retain_spec : ∀ t f k, (akeys (entries t)).Nodup →
     (akeys (entries (retain f t))).Nodup ∧
